@@ -10,7 +10,7 @@
 (***************************************************************************)
 EXTENDS Integers, Sequences, FiniteSets, TLC, Json, IOUtils, Randomization
 
-Kinds == {"garbage", "array", "nokind", "cancel_unknown", "enq_missing", "invalid_utf8", "half_line_then_drop", "drop"}
+Kinds == {"garbage", "array", "nokind", "cancel_unknown", "enq_missing", "invalid_utf8", "half_line_then_drop", "drop", "flood_no_read"}
 Scns == {[cores |-> c, ntasks |-> c + extra, misbehave |-> m] :
             c \in 1..3, extra \in 1..2, m \in {<<>>} \cup {<<k>> : k \in Kinds} \cup {<<k1, k2>> : k1 \in Kinds, k2 \in {"drop", "garbage"}}}
 Min2(a, b) == IF a < b THEN a ELSE b
